@@ -439,6 +439,7 @@ func zvC08FirstDiff(e zvC08Exp, v *zvoView) string {
 
 // zvC08Step replays hist on a fresh pipeline and evaluates the oracle on the reached state.
 func zvC08Step(r *vh.Run, cfg zvC08Cfg, hist []zvC08Op) (string, []zvC08Op, bool) {
+	zvoFresh()
 	c := zvC08Case{cfg, hist}
 	descs := zvC08Descs(cfg)
 	paths := make([]*route.Path, len(descs))
